@@ -82,7 +82,7 @@ class Evaluator:
             # a value built as a variant / tuple and taken apart again
             if k == "downcast" and o[1][0] == "agg" and o[1][1][0] == "adt" and o[1][1][2] == o[2]:
                 return self.ev(o[1])
-            if k == "field" and o[1][0] == "agg" and o[1][1][0] in ("adt", "tuple") and isinstance(o[2], int) and o[2] < len(o[1][2]):
+            if k == "field" and o[1][0] == "agg" and o[1][1][0] in ("adt", "tuple", "closure") and isinstance(o[2], int) and o[2] < len(o[1][2]):
                 return self.ev(o[1][2][o[2]])
             if k == "field" and o[1][0] == "downcast" and isinstance(o[1][1], tuple) and o[1][1] and o[1][1][0] == "agg" and o[1][1][1][0] == "adt":
                 if o[1][1][1][2] == o[1][2] and isinstance(o[2], int) and o[2] < len(o[1][1][2]):
@@ -141,7 +141,7 @@ class Evaluator:
         if k == "field":
             base = o[1]
             nb = self.peel(base)
-            if nb is not base and nb[0] == "agg" and nb[1][0] in ("adt", "tuple") and isinstance(o[2], int) and o[2] < len(nb[2]):
+            if nb is not base and nb[0] == "agg" and nb[1][0] in ("adt", "tuple", "closure") and isinstance(o[2], int) and o[2] < len(nb[2]):
                 return self.ev(nb[2][o[2]])
             # (a OpWithOverflow b).0 / .1
             if base[0] == "bin" and base[1].endswith("WithOverflow"):
